@@ -380,28 +380,32 @@ impl<F: PoseidonField> PoseidonChip<F> {
         self.config.q_partial_round.enable(region, *offset)?;
         self.assign_constants_partial(region, round_batch_index, *offset)?;
 
-        let outputs = Value::from_iter(inputs.iter().map(|x| x.value().copied()))
-            .map(|inputs: Vec<F>| {
-                let mut state = inputs;
-                let skip_advice_vals = partial_round_cpu_for_circuits(
-                    &self.config.pre_computed,
-                    round_batch_index,
-                    &mut state,
-                );
-                for (col, skip_advice) in self.config.register_cols[WIDTH..WIDTH + NB_SKIPS_CIRCUIT]
-                    .iter()
-                    .zip(skip_advice_vals)
-                {
-                    let _ = region.assign_advice(
-                        || "partial round intermediary inputs",
-                        *col,
-                        *offset,
-                        || Value::known(skip_advice),
+        let (outputs, skip_advice_vals) =
+            Value::from_iter(inputs.iter().map(|x| x.value().copied()))
+                .map(|inputs: Vec<F>| {
+                    let mut state = inputs;
+                    let skip_advice_vals = partial_round_cpu_for_circuits(
+                        &self.config.pre_computed,
+                        round_batch_index,
+                        &mut state,
                     );
-                }
-                state
-            })
-            .transpose_vec(WIDTH);
+                    (state, skip_advice_vals.to_vec())
+                })
+                .unzip();
+        // The intermediary cells are assigned whether or not the witness is known, so
+        // that the shape of the region does not depend on the witness.
+        for (col, skip_advice) in self.config.register_cols[WIDTH..WIDTH + NB_SKIPS_CIRCUIT]
+            .iter()
+            .zip(skip_advice_vals.transpose_vec(NB_SKIPS_CIRCUIT))
+        {
+            region.assign_advice(
+                || "partial round intermediary inputs",
+                *col,
+                *offset,
+                || skip_advice,
+            )?;
+        }
+        let outputs = outputs.transpose_vec(WIDTH);
 
         *offset += 1;
         outputs
